@@ -65,17 +65,24 @@ func cmdVerify(args []string) {
 	sort.Strings(keys)
 	var all []*Obligation
 	for _, k := range keys {
-		fn := eng.fnByKey[k][0]
 		con := eng.contracts.Funcs[k]
-		c := eng.verifyFunc(fn, con)
-		fmt.Printf("== %s: %d obligations, %d paths, contract=%v\n", k, len(c.obls), c.paths, con != nil)
-		for u := range c.unsup {
-			fmt.Println("   UNSUPPORTED:", u)
+		for _, fn := range eng.fnByKey[k] {
+			if fn.TypeParams().Len() > 0 && len(fn.TypeArgs()) == 0 {
+				continue
+			}
+			if fn.Synthetic != "" && !strings.HasPrefix(fn.Synthetic, "instance of") && fn.Synthetic != "package initializer" {
+				continue
+			}
+			c := eng.verifyFunc(fn, con)
+			fmt.Printf("== %s: %d obligations, %d paths, contract=%v\n", c.name, len(c.obls), c.paths, con != nil)
+			for u := range c.unsup {
+				fmt.Println("   UNSUPPORTED:", u)
+			}
+			for _, a := range sortedKeys(c.assumed) {
+				fmt.Println("   assumed:", a)
+			}
+			all = append(all, c.obls...)
 		}
-		for _, a := range sortedKeys(c.assumed) {
-			fmt.Println("   assumed:", a)
-		}
-		all = append(all, c.obls...)
 	}
 	for _, e := range eng.specErrs {
 		fmt.Println("SPEC-ERROR:", e)
